@@ -16,6 +16,7 @@ RULE = ("(i) GlobalTrapezoidalGridWeighted on weighted refinement trees (splits 
         "(ii) real dimension-wise UQ runs (d=1..3, real estimator or seeded hostile error values) with the vector model [g, c*g+e, const] "
         "and set_expectation_variance_Function(): E[c g+e]=cE[g]+e, Var[c g+e]=c^2 Var[g], Var>=0, constant model E=const, Var~0. "
         "distinct = digest(distribution, tree / configuration); non-trivial = non-uniform distribution or >=2 refinement steps")
+RULE += (" " + 'Dimensions of one family on identical bounds carry DIFFERENT parameters in a third of the cases; reference probabilities and means come from scipy.stats objects built from the distribution description, never from the library. Every relation is judged on the first and on two repeated read-outs of calculate_expectation_and_variance without refinement in between.')
 REQUIRED = ["weights_nonnegative", "weights_sum_to_one", "uniform_equals_trapezoid", "midpoint_inside", "midpoint_equal_probability",
             "expectation_affine", "variance_affine", "variance_nonnegative", "constant_model"]
 MIN_NONTRIVIAL = {"quick": 300, "thorough": 4000}
